@@ -830,9 +830,142 @@ func runTraceConcurrent(k *vf.Case) {
 	k.C.Sig(fmt.Sprintf("tconc|%d|%v", G, withShutdown))
 }
 
+// ---------------------------------------------------------------------------------------------
+// F: telemetry calls racing Shutdown on the stock batching components: nothing may block forever.
+// Aims at the blocking-mode batch span processor with a tiny queue (producers that passed the
+// "stopped" check wait for a queue slot nobody will free once the worker has drained and left),
+// and the symmetric shapes of the log batch processor and the periodic reader.
+
+type slowSpanExp struct {
+	d         time.Duration
+	shutdowns atomic.Int32
+}
+
+func (e *slowSpanExp) ExportSpans(ctx context.Context, ss []sdktrace.ReadOnlySpan) error {
+	time.Sleep(e.d)
+	return nil
+}
+func (e *slowSpanExp) Shutdown(context.Context) error { e.shutdowns.Add(1); return nil }
+
+type slowLogExp struct {
+	d         time.Duration
+	shutdowns atomic.Int32
+}
+
+func (e *slowLogExp) Export(context.Context, []sdklog.Record) error { time.Sleep(e.d); return nil }
+func (e *slowLogExp) Shutdown(context.Context) error                { e.shutdowns.Add(1); return nil }
+func (e *slowLogExp) ForceFlush(context.Context) error              { return nil }
+
+func runShutdownRace(k *vf.Case) {
+	r := k.R
+	prevProcs := runtime.GOMAXPROCS(vf.Pick(r, []int{2, 4, 16}))
+	defer runtime.GOMAXPROCS(prevProcs)
+	kind := vf.Pick(r, []string{"bsp-blocking", "bsp-blocking", "bsp-dropping", "log-batch", "periodic"})
+	P := vf.Pick(r, []int{4, 8, 16})
+	per := 20 + r.Intn(60)
+	d := time.Duration(r.Intn(300)) * time.Microsecond
+	shutdowners := 1 + r.Intn(2)
+	flushers := r.Intn(3)
+	delaySpins := r.Intn(200)
+	var emit func(i int)
+	var flush, shutdown func(ctx context.Context) error
+	var shutdownCount func() int32
+	switch kind {
+	case "bsp-blocking", "bsp-dropping":
+		e := &slowSpanExp{d: d}
+		opts := []sdktrace.BatchSpanProcessorOption{sdktrace.WithMaxQueueSize(vf.Pick(r, []int{1, 1, 2, 4})), sdktrace.WithMaxExportBatchSize(vf.Pick(r, []int{1, 2, 8})), sdktrace.WithBatchTimeout(vf.Pick(r, []time.Duration{time.Millisecond, time.Hour}))}
+		if kind == "bsp-blocking" {
+			opts = append(opts, sdktrace.WithBlocking())
+		}
+		tp := sdktrace.NewTracerProvider(sdktrace.WithSpanProcessor(sdktrace.NewBatchSpanProcessor(e, opts...)))
+		tr := tp.Tracer("f")
+		emit = func(int) { _, sp := tr.Start(context.Background(), "s"); sp.End() }
+		flush, shutdown, shutdownCount = tp.ForceFlush, tp.Shutdown, e.shutdowns.Load
+	case "log-batch":
+		e := &slowLogExp{d: d}
+		lp := sdklog.NewLoggerProvider(sdklog.WithProcessor(sdklog.NewBatchProcessor(e, sdklog.WithMaxQueueSize(vf.Pick(r, []int{1, 2, 8})), sdklog.WithExportMaxBatchSize(vf.Pick(r, []int{1, 2, 8})),
+			sdklog.WithExportInterval(vf.Pick(r, []time.Duration{time.Millisecond, time.Hour})), sdklog.WithExportBufferSize(vf.Pick(r, []int{1, 2})))))
+		lg := lp.Logger("f")
+		emit = func(i int) { var rec log.Record; rec.SetBody(log.IntValue(i)); lg.Emit(context.Background(), rec) }
+		flush, shutdown, shutdownCount = lp.ForceFlush, lp.Shutdown, e.shutdowns.Load
+	default:
+		e := &recMetricExp{}
+		rd := sdkmetric.NewPeriodicReader(e, sdkmetric.WithInterval(vf.Pick(r, []time.Duration{time.Millisecond, time.Hour})), sdkmetric.WithTimeout(time.Second))
+		mp := sdkmetric.NewMeterProvider(sdkmetric.WithReader(rd))
+		ctr, _ := mp.Meter("f").Int64Counter("c")
+		emit = func(i int) { ctr.Add(context.Background(), 1) }
+		flush, shutdown, shutdownCount = mp.ForceFlush, mp.Shutdown, e.shutdowns.Load
+	}
+	var wg sync.WaitGroup
+	release := make(chan struct{})
+	var mu sync.Mutex
+	var panics []string
+	guard := func(f func()) {
+		wg.Add(1)
+		go func() {
+			defer wg.Done()
+			defer func() {
+				if rec := recover(); rec != nil {
+					buf := make([]byte, 3000)
+					n := runtime.Stack(buf, false)
+					mu.Lock()
+					panics = append(panics, fmt.Sprintf("%v\n%s", rec, buf[:n]))
+					mu.Unlock()
+				}
+			}()
+			<-release
+			f()
+		}()
+	}
+	for p := 0; p < P; p++ {
+		guard(func() {
+			for i := 0; i < per; i++ {
+				emit(i)
+			}
+		})
+	}
+	for f := 0; f < flushers; f++ {
+		guard(func() {
+			for i := 0; i < 5; i++ {
+				ctx, cancel := context.WithTimeout(context.Background(), 5*time.Second)
+				flush(ctx)
+				cancel()
+			}
+		})
+	}
+	for s := 0; s < shutdowners; s++ {
+		guard(func() {
+			for i := 0; i < delaySpins; i++ {
+				runtime.Gosched()
+			}
+			ctx, cancel := context.WithTimeout(context.Background(), 10*time.Second)
+			shutdown(ctx)
+			cancel()
+		})
+	}
+	finished, stuck, desc := vf.Watch(30*time.Second, 2*time.Second, func() { close(release); wg.Wait() })
+	k.C.Count("shutdown_race_cases", 1)
+	k.C.Count("shutdown_race_cases_"+kind, 1)
+	k.C.Sig(fmt.Sprintf("race|%s|%d|%d", kind, P, shutdowners))
+	if !finished {
+		if stuck {
+			k.Violate("blocks-forever", kind+" telemetry racing Shutdown", desc, nil)
+		} else {
+			k.C.Inconclusive("shutdown-race case did not finish")
+		}
+		return
+	}
+	for _, p := range panics {
+		k.Violate("panic", strings.SplitN(p, "\n", 2)[0], p, nil)
+	}
+	if n := shutdownCount(); n != 1 {
+		k.Violate("exporter-shutdown-count", "shutdown race "+kind, fmt.Sprint(n), nil)
+	}
+}
+
 func main() {
 	vf.Main("C15", "exploration", func(c *vf.Ctx) {
-		c.Rule = "child process per batch of programs: (A) sequential programs of 5-60 Register/Unregister(registered, never registered, already unregistered)/Tracer/Start+End/ForceFlush/Shutdown(live, deadline, cancelled) on the TracerProvider against a membership model; (B) stock matrix {Simple,Batch} span processor x {recording, stdouttrace, nil} exporter, (C) {Manual, Periodic} reader x {recording incl. failing export, stdoutmetric}, (D) {Simple,Batch} log processor x {recording, stdoutlog, nil}, each with 1-4 Shutdown calls issued sequentially or concurrently, through the provider or the component, then telemetry/flush/shutdown calls after Shutdown; (E) concurrent op alphabet on the TracerProvider from 2-16 goroutines under -race. distinct = distinct (family, component kinds, shutdown pattern, context kind) signatures"
+		c.Rule = "child process per batch of programs: (A) sequential programs of 5-60 Register/Unregister(registered, never registered, already unregistered)/Tracer/Start+End/ForceFlush/Shutdown(live, deadline, cancelled) on the TracerProvider against a membership model; (B) stock matrix {Simple,Batch} span processor x {recording, stdouttrace, nil} exporter, (C) {Manual, Periodic} reader x {recording incl. failing export, stdoutmetric}, (D) {Simple,Batch} log processor x {recording, stdoutlog, nil}, each with 1-4 Shutdown calls issued sequentially or concurrently, through the provider or the component, then telemetry/flush/shutdown calls after Shutdown; (E) concurrent op alphabet on the TracerProvider from 2-16 goroutines under -race; (F) 4-16 producers, 0-2 flushers and 1-2 Shutdown callers released together on a batch span processor (blocking and dropping, queue 1-4), log batch processor (queue 1-8) or periodic reader with a slow exporter: every call must return (watchdog 30 s + two identical stack samples). distinct = distinct (family, component kinds, shutdown pattern, context kind) signatures"
 		c.Assume = []string{"'exactly once' is asserted when the first Shutdown carried a live context; with a cancelled first context the providers return ctx.Err() early by design, so only 'at most once, no panic, no hang' is asserted", "for the log SimpleProcessor 'nothing more is exported' is measured on the stock exporter's output", "a repeated MeterProvider/Reader Shutdown may return the documented ErrReaderShutdown"}
 		otel.SetErrorHandler(otel.ErrorHandlerFunc(func(error) {}))
 		otel.SetLogger(logr.Discard())
@@ -842,6 +975,8 @@ func main() {
 		c.Isolated("metric", c.N(800, 10_000), iso, runMetric)
 		c.Isolated("log", c.N(800, 10_000), iso, runLog)
 		c.Isolated("trace-concurrent", c.N(400, 6000), vf.IsoOpts{Batch: 25, Par: 8, Timeout: 5 * time.Minute}, runTraceConcurrent)
+		c.Isolated("shutdown-race", c.N(1200, 20_000), vf.IsoOpts{Batch: 40, Par: 16, Timeout: 5 * time.Minute}, runShutdownRace)
+		c.Floor("shutdown_race_cases", 600)
 		c.Floor("trace_seq_programs", 1000)
 		c.Floor("programs_with_stranger_unregister", 200)
 		c.Floor("programs_with_cancelled_first_shutdown", 20)
